@@ -1,4 +1,5 @@
 """C06 Plant / CHP unit commitment."""
+import os
 import random
 from ..comp import chp as CH
 
@@ -8,9 +9,17 @@ PARTIAL = CH.PARTIAL
 MODELLED = CH.MODELLED
 COMPONENTS = ['CHP/Plant builder (on the real Contract base problem) vs CHPAsset.setup_optim_problem: exact rows over all include-flag combinations, incl. start/shutdown ramp profiles (with heat variants and _convert_ramp), CHPAsset_with_min_load_costs and costs_only', 'unit-commitment automaton (model) vs feasibility of pinned on/off patterns in the REAL asset problem (HiGHS)']
 RULE = ('profile cases (start-only, shutdown-only, both, heat variants, ramp_freq finer / coarser / equal) and min-load cases (threshold and costs as scalar, key, dict, array, None, negative; own windows) in the build and portfolio streams with the oracles chp.profile (k-th step after a start / before a shutdown within the k-th profile bounds) and chp.min_load (below threshold while on => flag); streams: builder correspondence over all include-flag combinations (on/start variables, heat node, fuel node, ramp, initial state, parameter forms, windows, step != main unit); pattern oracle: all 2^T on/off patterns (T <= 7 quick, <= 10 thorough) pinned in the real problem vs the automaton; portfolio oracle recomputing capacity, ramps, heat share, fuel, starts from x; '
+        "stream 'start-costs-vary' (every 10th case): plants / CHPs with start costs varying in time and zero in some steps of the window (interval dict covering part of the window or with zero values, price key, array), mostly nothing else calling for start variables, block prices that make cycling attractive; oracle chp.start_costs on every solved portfolio with start costs: in a step with an off->on transition (on variables, without them read from the dispatch) the plant's cash flow holds at least the start costs of that step beyond the costs of its other variables (lower bound only: charging without a transition is known finding F-06b); "
+        "probe stream (40 quick / 240 thorough cases apart from the normal streams): plants / CHPs with a start ramp profile and a general ramp, inside their start ramp at the beginning of the horizon or off before; oracle chp.profile_ramp pins the dispatch that follows the (remaining) start profile and then stays constant in the real asset problem: admissible under the statement whatever the ramp (control: the same start one step later); "
         'non-trivial = case with on-variables or a solved portfolio; distinct by case hash')
 ASSUMPTIONS = ['pattern feasibility decided by HiGHS MILP on the real rows']
 EXPLANATION = 'rows-iff-spec and spec-iff-automaton theorems (unbounded in T) about the model of the generated rows; exact row correspondence; pattern and portfolio oracles on the real code'
+
+
+# TODO switch (coordinator): the statement-level probe chp.profile_ramp reproduces two behaviours of the unchanged code that
+# contradict the ramp clause of C06 (proposed known findings F-06h, F-06i).  Until known_findings.json carries the two
+# entries a run with the probe prints VIOLATION ... oracle=chp.profile_ramp; VERIF_C06_PROBES=0 leaves the probe stream out.
+PROBE_PROFILE_RAMP = os.environ.get('VERIF_C06_PROBES', '1') != '0'
 
 
 def scenarios(seed, tier):
@@ -23,15 +32,27 @@ def scenarios(seed, tier):
             c = CH.gen_focus_start_fuel(r1, tmax=8 if tier == 'quick' else 10)
         elif i % 10 == 4:
             c = CH.gen_focus_ramp_conv(r1, tmax=8 if tier == 'quick' else 10)
+        elif i % 10 == 7:
+            c = CH.gen_focus_start_costs_vary(r1, tmax=8 if tier == 'quick' else 10)
         else:
             c = CH.gen_case(r1, kind=kinds[i % 5], tmax=8 if tier == 'quick' else 10)
         c['_tier'] = tier
         yield 'chp%d' % i, c
+    if PROBE_PROFILE_RAMP:
+        rnd = random.Random(seed * 7919 + 606)
+        for i in range(40 if tier == 'quick' else 240):
+            c = CH.gen_probe_profile_ramp(random.Random(rnd.getrandbits(48)), tmax=8)
+            c['_tier'] = tier
+            yield 'probe%d' % i, c
 
 
 def run_case(case, drv):
     tier = case.pop('_tier', 'quick')
     r = CH.run_case(case, drv, pattern_tmax=7 if tier == 'quick' else 10)
+    if case.get('focus'):
+        r['features'].append('focus:' + case['focus'])
+    if (r.get('observed', {}).get('paid_transitions') or 0) > 0:
+        r['features'].append('paid-transition')
     r['disagreements'] = [d if isinstance(d, dict) else {'component': 'chp', 'detail': d} for d in r['disagreements']]
     r.setdefault('evaluated', 1 + int(r.get('observed', {}).get('patterns', 0) or 0))
     r.setdefault('nontrivial', ('on' in r['features']) or ('solved' in r['features']))
